@@ -86,6 +86,19 @@ def run(res):
     ok, detail = C.prove(res, MODULES, THEOREMS)
     if not ok:
         C.tie_broken(res, "proof Gozod.Proofs.C15", detail)
+    # structure fingerprints of the Go functions the Lean definitions transcribe (vlib/fingerprints/C15.json). A function that
+    # is gone is a broken tie. A changed one AIMS the run: the classes that reach it are generated at four times the size,
+    # and the correspondence decides as usual; if no generated case reaches it, that is a broken tie.
+    import os
+    changed = C.fingerprint(res, "C15")
+    gone = [c for c in changed if c[2] == "missing"]
+    if gone:
+        C.tie_broken(res, "fingerprint " + gone[0][0], "the Go function a Lean definition transcribes is gone / renamed:\n" +
+                     "\n".join("  %s transcribed by %s" % (c[0], c[1]) for c in gone))
+    if changed and res.tier == "quick":
+        os.environ["C15_AIM"] = "4"
+    else:
+        os.environ.pop("C15_AIM", None)
     data, err = C.correspond(res, "C15")
     if data is None:
         C.tie_broken(res, "correspondence C15/parse-aliasing", err)
@@ -104,7 +117,28 @@ def run(res):
         "on fresh equal copies; the Lean model (parseS / stepC) predicts verdicts, looks, aliasing and schema state. val / reparse additionally draw state-holding leaves (Literal[any] / LiteralOf[any] / "
         "LiteralTyped over composites of 11 Go types, their Optional / RefineAny / Default clones, FromJSONSchema const / enum / default with composite values) inside every container kind; reparse checks "
         "the result against storex.SchemaAddrs (every cell reachable from the schema). "
+        "ptr(ctor): every exported XxxPtr constructor of package types (listed from the source by go/ast, 108) x every accepted value of a 70-value pool through a fresh pointer, Parse and StrictParse. "
         "ptr / dflt / reparse: the round-1 classes over storex.Probes(). distinct = distinct op bodies (graph shapes × histories).")
+    # the same-pointer clause quantifies over every pointer-typed constructor: the harness lists them from the source (go/ast)
+    st = data[3] if isinstance(data, (list, tuple)) and len(data) > 3 and isinstance(data[3], dict) else {}
+    res.coverage["pointer_constructors"] = {k: st.get(k) for k in ("ptr_constructors_in_source", "ptr_constructors_run", "ptr_constructors_not_run")}
+    if st.get("ptr_constructors_not_run"):
+        C.tie_broken(res, "pointer constructors", "pointer-typed constructors of package types that no case runs (add them to ptrCtorTable in "
+                     "harness/cmd/c15/ptrctors.go): " + " ".join(st["ptr_constructors_not_run"]))
+    if not st.get("ptr_constructors_in_source"):
+        C.tie_broken(res, "pointer constructors", "the harness found no XxxPtr constructor in the source of package types (build info / go/ast)")
+    if changed:
+        # which generated classes exercise the changed function (harness histogram keys)
+        reach = {"types/literal.go": "own:schema-holds-composite-member-or-default", "internal/engine/modifiers.go": "own:root:dflt",
+                 "internal/engine/parser.go": "ptr:gen", "types/object.go": "own:root:obj", "types/slice.go": "own:root:slice",
+                 "types/array.go": "own:root:slice", "types/record.go": "own:root:rec"}
+        hist = (data[3] if isinstance(data, (list, tuple)) and len(data) > 3 and isinstance(data[3], dict) else {}) or {}
+        hist = hist.get("histogram", hist)
+        for c in changed:
+            hkey = reach.get(c[0].split(":")[0])
+            res.notes.append("source of %s changed (%s: %s); transcribed by %s; classes reaching it run at 4x size" % (c[0], c[2], c[3], c[1]))
+            if hkey and isinstance(hist, dict) and hist and not hist.get(hkey):
+                C.tie_broken(res, "fingerprint " + c[0], "no generated case reaches the changed function (histogram key %s is empty)" % hkey)
     res.assumptions += [
         "the reflective mutator reaches everything a caller could reach through exported maps, slices (up to cap), pointers, arrays and struct fields; values reachable only through a non-addressable copy are reached through the references they hold",
         "user callbacks (DefaultFunc/PrefaultFunc results) are the caller's own data and are not required to be copied",
